@@ -11,7 +11,7 @@ import errno
 import os
 
 from sim import modinst
-from sim.kernel import BLOCKED, DONE, Kernel
+from sim.kernel import BLOCKED, DONE, Kernel, SimAbort
 from sim.simos import SimOS
 from sim.simthreading import make_threading
 from sim.tape import Tape
@@ -362,6 +362,25 @@ class Oracle:
             if fr['phase'] != 'acq':
                 continue
             self._update_contention(vt, fr)
+            if vt.state == BLOCKED and vt.blocked_kind == 'lockf' and fr['req']['shared']:
+                # "any number may hold it shared together": a shared request must not wait
+                # behind a process that only has shared holders and is not transitioning
+                inode = fr['inode']
+                for p, m in self.os.locks.get(inode, {}).items():
+                    if p == vt.pid or m != 'X' or p in self.k.dead_pids:
+                        continue
+                    busy = any(h[0].pid == p and h[1] == inode and h[2] == 'X' for h in self.holds)
+                    if not busy:
+                        for o, ofr in self.inflight.items():
+                            if o.pid == p and any(f['inode'] == inode and f['phase'] in ('acq', 'rel')
+                                                  for f in ofr):
+                                busy = True
+                                break
+                    if not busy:
+                        self.violation('shared-blocked-by-shared',
+                                       f'{vt.name}: shared request waits in lockf although process {p} '
+                                       f'has no exclusive holder and nobody in transition (kernel lock '
+                                       f'left exclusive)')
             if not fr['req']['blocking'] and vt.state == BLOCKED:
                 kind = vt.blocked_kind
                 if kind in ('lockf', 'cond'):
@@ -492,6 +511,8 @@ def run_one(cfg, tape: Tape, want_trace=False):
 
         def run_items(vt, items):
             for it in items:
+                if vt.killed:
+                    raise SimAbort()
                 if it[0] == 'hold':
                     k.yield_point('hold')
                 else:
@@ -521,7 +542,7 @@ def run_one(cfg, tape: Tape, want_trace=False):
                 raise
             except WouldBlock as e:
                 if vt.killed:
-                    raise
+                    raise SimAbort()
                 if entered:
                     oracle.on_done(vt, fr, 'error', e)
                 else:
@@ -529,6 +550,8 @@ def run_one(cfg, tape: Tape, want_trace=False):
                     if req['propagate']:
                         raise _Propagated()
             except Recursive as e:
+                if vt.killed:
+                    raise SimAbort()
                 if entered:
                     oracle.on_done(vt, fr, 'error', e)
                 else:
@@ -536,6 +559,8 @@ def run_one(cfg, tape: Tape, want_trace=False):
                     if req['propagate']:
                         raise _Propagated()
             except OSError as e:
+                if vt.killed:
+                    raise SimAbort()
                 if entered:
                     oracle.on_done(vt, fr, 'error', e)
                 else:
@@ -543,6 +568,8 @@ def run_one(cfg, tape: Tape, want_trace=False):
                     if req['propagate']:
                         raise _Propagated()
             except Exception as e:  # AssertionError, KeyError, RuntimeError ... from lock.py
+                if vt.killed:
+                    raise SimAbort()
                 oracle.on_done(vt, fr, 'error', e)
             else:
                 oracle.on_done(vt, fr, 'granted')
